@@ -6,7 +6,10 @@ Three parts, all complete enumerations:
           relation x timing breakdown x filler) x EVERY crash point of the last block (after the memory banner, after
           the column header, after every row, inside a row at every character, after the 'Loop time' line, after every
           later line, complete, complete without final newline), each text given as str, as file path and as
-          binary stream; oracle = the printed tokens.
+          binary stream; oracle = the printed tokens: a completely printed token comes back as a number equal to it,
+          a cell the crash left unprinted as NaN, a non-numeric fragment of a number ("5.6e-") as NaN or as itself.
+          (Quick tier: mid-row cuts of the last row only, runs of blanks represented by their first and last
+          position; thorough: every character of every row.)
  inputs   every way of handing a complete log over (str, bytes-free path str, pathlib.Path, BytesIO, open 'rb'
           file) gives the same records.
  history  explicit-state BFS over Log() / Log(x) / read(x) / read(x, append=True) / read(x, append=False) on a menu
@@ -36,8 +39,10 @@ chk = Check('C19', 'model_checking',
             'crash-point enumeration: full product of log shapes (2 memory banners x 1-3 run/minimize blocks x 4 thermo '
             'keyword modes with int and float columns x {boundary-sharing, disjoint, overlapping-tail} step ranges x '
             'timing breakdown {table, none(timer off), pre-2015 lines} x {plain, rich} command echo) x every '
-            'line-boundary cut of the last block + every character cut inside its rows, each read as str / path / '
-            'stream; plus BFS over histories of Log()/Log(x)/read(x)/read(x,append=True|False) on a menu of logs with '
+            'line-boundary cut of the last block + character cuts inside its rows (thorough: every character of every '
+            'row; quick: last row, every character inside a token and the first and last blank of every gap), read as '
+            'str / path / stream (quick: mid-row, loop and post cuts rotate through the three kinds, flatten is compared '
+            'once per text); plus BFS over histories of Log()/Log(x)/read(x)/read(x,append=True|False) on a menu of logs with '
             'dedup on the model state (sequence of logs read since the last reset). A crash case is one (shape, cut '
             'class); evaluations = log texts read; non-trivial = texts whose last table has at least one row')
 chk.assumptions = [
